@@ -168,8 +168,8 @@ def judge_groups(ctx, groups, clause_filter, site_of=None, tags_of=None, trace_m
                 continue                      # Reset leaves most state UNKNOWN: only the range canary applies
             if kind == 'priv':
                 ctx.canary('confine' in v['v'] or 'range' in v['v'] or 'hosterror' in v['v'] or
-                           (v['path'].startswith(('memapi', 'exc')) and bool(v['v'])))
-            elif v['path'].startswith(('exact', 'exc', 'memapi')) or kind == 'range':
+                           (v['path'].startswith(('memapi', 'exc', 'psrapi', 'exact')) and bool(v['v'])))
+            elif v['path'].startswith(('exact', 'exc', 'memapi', 'psrapi:CpsrWrite', 'psrapi:SpsrWrite')) or kind == 'range':
                 ctx.canary(bool(v['v']))
                 if not v['v']:
                     log('  canary not rejected: kind=%s path=%s act=%s' % (kind, v['path'], c['act']))
